@@ -1,0 +1,19 @@
+//go:build verif
+// +build verif
+
+package utils
+
+import (
+	uuid "github.com/satori/go.uuid"
+)
+
+// VerifCreateWithId registers a notification channel under a caller-chosen id,
+// so that a replica fed byte-identical log entries can observe the outcome the
+// apply loop reports for them.
+func (this *Notificator) VerifCreateWithId(id uuid.UUID, bufSize int) <-chan interface{} {
+	c := make(chan interface{}, bufSize)
+	this.mu.Lock()
+	this.chans[id] = c
+	this.mu.Unlock()
+	return c
+}
